@@ -57,3 +57,37 @@ verif_sha256_path(void)
 	return (-1);
 #endif
 }
+
+/*
+ * C03: the library's OWN one-vector self-test of an accelerated transform, asked once more with the arguments
+ * hwaccel_init() uses (which: 1 SHA-NI, 2 SSE2).  0 = it passes, 1 = it FAILS (the library then falls back at run
+ * time and says so with a warning), -1 = that transform is not compiled in.  hwtest() compares with the portable
+ * transform and therefore has to run with hwaccel == HW_SOFTWARE; the selection and the entry counters are put back.
+ * Only to be called for a feature the (forced) cpusupport flags report: the instructions are executed.
+ */
+int
+verif_sha256_selftest(int which)
+{
+#ifdef HWACCEL
+	uint32_t W[64], S[8];
+	uint8_t block[64], i;
+	uint64_t c1 = verif_sha256_calls_shani, c2 = verif_sha256_calls_sse2;
+	__typeof__(hwaccel) saved = hwaccel;
+	int r = -1;
+
+	for (i = 0; i < 64; i++) block[i] = i;
+	hwaccel = HW_SOFTWARE;
+#if defined(CPUSUPPORT_X86_SHANI) && defined(CPUSUPPORT_X86_SSSE3)
+	if (which == 1) r = hwtest(initial_state, block, W, S, SHA256_Transform_shani_with_W_S) != 0;
+#endif
+#if defined(CPUSUPPORT_X86_SSE2)
+	if (which == 2) r = hwtest(initial_state, block, W, S, SHA256_Transform_sse2) != 0;
+#endif
+	hwaccel = saved;
+	verif_sha256_calls_shani = c1; verif_sha256_calls_sse2 = c2;
+	return (r);
+#else
+	(void)which;
+	return (-1);
+#endif
+}
